@@ -12,6 +12,7 @@ mod lattice;
 mod monitor;
 mod zoo;
 mod eval;
+mod jdoc;
 mod named;
 mod par;
 mod rng;
